@@ -4,7 +4,7 @@ from vkit.runner import Unit
 
 BER = "src/celeritas/random/distribution/BernoulliDistribution.hh"
 SEL = "src/celeritas/random/Selector.hh"
-URD = "src/celeritas/random/distribution/UniformRealDistribution.hh"
+URD = "src/celeritas/random/distribution/UniformRealDistribution.hh"   # not under contract: CBMC has no model of fma() (returns nondet)
 HDR = '#include "celer.h"\n'
 
 RNG_MODEL = """
@@ -56,7 +56,7 @@ void h_ber(void)
 
 SEL_RULES = GC_RULES + [
     Rule(r"\btotal_\b", "self->total_", "+", note="data member"),
-    Rule(r"for \(IterT iter\{\}; iter != last_; \+\+iter\)", "for (size_type iter = 0; iter != self->last_; ++iter)", 1, note="RangeIter<T> -> its integer value (IterT{} == 0)"),
+    Rule(r"for \(IterT iter\{\}; iter (\S+) last_; \+\+iter\)", r"for (size_type iter = 0; iter \1 self->last_; ++iter)", 1, note="RangeIter<T> -> its integer value (IterT{} == 0)"),
     Rule(r"eval_\(\*iter\)", "EVAL(self, iter)", "+", note="F functor -> ghost table"),
     Rule(r"return \*iter;", "return iter;", 1, note="RangeIter dereference -> value"),
     Rule(r"return \*last_;", "return self->last_;", 1, note="RangeIter dereference -> value"),
